@@ -79,7 +79,20 @@ func Harness_C09_q_every_constructor_value_fidelity() {
 		}
 	case c.Format == FormatBool:
 		v := verif.Bool("bool-value")
-		set(v)
+		// HAP lets a controller spell a bool as true/false or as the number 1/0 (JSON numbers
+		// arrive as float64); the application passes bool or int
+		num := 0
+		if v {
+			num = 1
+		}
+		switch verif.Choice("bool-spelling", 3) {
+		case 0:
+			set(v)
+		case 1:
+			set(float64(num))
+		default:
+			set(num)
+		}
 		if readable && effective {
 			got, ok := c.Value.(bool)
 			verif.Assert(ok && got == v, "bool-value-fidelity")
